@@ -31,6 +31,10 @@ var ioRace = []string{`^io/`, `^internal/convert/`}
 var codecRace = []string{`^io/`, `^internal/convert/`, `^rpc/core/.*codec`}
 
 var props = map[string]propCfg{
+	"C07": {Pkg: "checks/c07", Level: "exploration", Passes: []pass{
+		{Name: "plain", Shards: 16, TimeoutS: 900, TZ: []string{"UTC", "Asia/Shanghai"}},
+		{Name: "race", Race: true, Shards: 16, TimeoutS: 1200, TZ: []string{"UTC"}},
+	}, RaceFiles: codecRace},
 	"C14": {Pkg: "checks/c14", Level: "exploration", Passes: []pass{
 		{Name: "race", Race: true, Shards: 48, ShardsThorough: 256, TimeoutS: 900, TZ: []string{"UTC"}},
 		{Name: "plain", Shards: 48, ShardsThorough: 256, TimeoutS: 600, TZ: []string{"UTC"}},
